@@ -14,7 +14,9 @@ S(x) == StrV(x)
 StrP == {S(<<>>), S(<<"a">>), S(<<"a", "b">>), S(<<"b", " ", "a">>), S(<<"%", "d">>), S(<<"%", "s", "-", "%", "s">>), S(<<"1">>), S(<<"1", "0">>),
          S(<<"A", "b">>), S(<<" ", "a", " ">>), S(<<"a", ",", "b">>), S(<<"(", "a", ")">>), S(<<"[">>), S(<<"{", "}">>), S(<<"a", "LF">>), S(<<"e", "acute">>),
          S(<<"t", "r", "u", "e">>), S(<<"%", "v">>), S(<<"n", "u", "l", "l">>), S(<<"1", "h">>),
-         S(<<"a", ",", " ", "b", "LF", "1", ",", " ", "0", "LF">>), S(<<"a", ",", "b", "LF", "1", ",", "0">>)}
+         S(<<"a", ",", " ", "b", "LF", "1", ",", " ", "0", "LF">>), S(<<"a", ",", "b", "LF", "1", ",", "0">>),
+         \* JSON documents with leading / trailing whitespace
+         S(<<" ", "{", "}">>), S(<<"LF", "[", "1", "]", " ">>), S(<<" ", " ", "t", "r", "u", "e">>), S(<<"TAB", "1">>)}
 DynTypes == {TNum, TStr, TBool, TList(TStr), TList(TNum), TSet(TStr), TSet(TNum), TMap(TNum), TMap(TStr), TTup(<<TNum, TStr>>), TTup(<<>>),
              TObj([a |-> TNum, b |-> TStr]), TObj(<<>>), TList(TList(TNum)), TTup(<<TList(TStr), TNum>>), TMap(TList(TStr)), TList(TObj([a |-> TNum])), TSet(TTup(<<TNum, TStr>>))}
 RECURSIVE Pool(_)
